@@ -11,7 +11,8 @@ META = {
                    'Err, unwinding); nothing suppresses destructors. R04.2 dropping a collector releases ALL objects it still manages '
                    '(bitmap typestate of destroy/sweep). R04.3 ownership hand-over is paired: every constant the compiler\'s collector '
                    'gives up is adopted by the run\'s collector, the result is given up exactly on the Ok exit. R04.4 the sweep frees each '
-                   'removed object exactly once and only unmarked ones.',
+                   'removed object exactly once and only unmarked ones.'
+                   ' R04.5 free_recursive releases every reachable object exactly once (address-keyed first-time test before every free; arrays are entered). R04.7 untrace hands the whole result over. R04.8 objects are freed only by the sweep or by free_recursive.',
     'not_decided': ['the allocation ledger itself (each object released exactly once as a count over a run)',
                     'release at every instruction-level abort point (we decide only that all exits share the one release path)'],
 }
@@ -29,6 +30,10 @@ def run(ctx, rep):
     rep.rule('R04.5', 'the caller can release a returned result completely: free_recursive frees every element and the object')
     check_free_recursive(ctx, rep, 'R04.5')
     rep.rule('R04.6', 'a box whose content owns memory is dropped in place before it is deallocated')
+    rep.rule('R04.7', 'the result is handed over whole: untrace takes everything reachable from it out of the collector (otherwise the rest is freed under the caller)')
+    c03.check_array_recursion(ctx, rep, 'R04.7', names=('untrace',))
+    rep.rule('R04.8', 'released exactly once: objects are freed only by the sweep of the collector that manages them, or by free_recursive on a handed-over result')
+    c03.check_who_frees(ctx, rep, 'R04.8')
     check_box_release(ctx, rep, 'R04.6')
     # ---- R04.1 ---------------------------------------------------------------------------------
     news = [(b, t) for b, t in fn.calls() if callee_name(t) == GCN + 'new']
@@ -175,18 +180,139 @@ def check_box_release(ctx, rep, rule):
     rep.count('box_releases', n)
 
 
+SET_INSERT = ('HashSet::<T, S, A>::insert', 'BTreeSet::<T, A>::insert', 'HashSet::<T, S>::insert', 'BTreeSet::<T>::insert')
+SET_HAS = ('::contains', '::contains_key', 'Iterator::any', '::binary_search')
+COLL_ADD = ('Vec::<T, A>::push', 'Vec::<T, A>::extend_from_slice', 'Extend<T>>::extend', "Extend<&'a T>>::extend", 'Vec::<T, A>::append', 'Vec::<T, A>::insert',
+            'VecDeque::<T, A>::push_back', 'VecDeque::<T, A>::push_front')
+COLL_DRAW = ('Vec::<T, A>::pop', 'Iterator>::next', 'Iterator::next', 'VecDeque::<T, A>::pop_front', 'VecDeque::<T, A>::pop_back', 'Vec::<T, A>::swap_remove', 'Vec::<T, A>::remove')
+THROUGH = ('IntoIterator>::into_iter', '::iter', '::iter_mut', '::drain', 'Deref>::deref', 'DerefMut>::deref_mut', '::as_slice', '::as_mut_slice', '::copied', '::cloned', '::rev',
+           '::by_ref', '::into_iter')
+
+
+def _root_local(fn, op, depth=0):
+    """the local that owns what the operand designates: through `&`/`&mut` temporaries, copies, and iterator / view adaptors.
+    Returns ('local', n) | ('call', callee, block) when it ends at the result of another call | None"""
+    if op.get('k') not in ('copy', 'move') or depth > 12:
+        return None
+    l = op['place']['local']
+    if l <= fn.arg_count:
+        return ('local', l)
+    ds = fn.defs().get(l, [])
+    if len(ds) != 1:
+        return ('local', l)
+    d = ds[0]
+    if d[0] == 'call':
+        tt = fn.term(d[1])
+        n = callee_name(tt)
+        if n.endswith(THROUGH) and tt['args']:
+            return _root_local(fn, tt['args'][0], depth + 1)
+        return ('call', n, d[1], l)
+    rv = d[3]
+    if rv['k'] == 'ref':
+        pl = rv['place']
+        if pl['proj'] and pl['proj'][0] == 'deref':
+            return _root_local(fn, {'k': 'copy', 'place': {'local': pl['local'], 'proj': []}}, depth + 1)
+        return _root_local(fn, {'k': 'copy', 'place': {'local': pl['local'], 'proj': []}}, depth + 1) if pl['local'] != l else ('local', l)
+    if rv['k'] == 'use' and rv['op'].get('k') in ('copy', 'move'):
+        return _root_local(fn, {'k': 'copy', 'place': {'local': rv['op']['place']['local'], 'proj': []}}, depth + 1)
+    if rv['k'] == 'cast' and rv['op'].get('k') in ('copy', 'move'):
+        return _root_local(fn, {'k': 'copy', 'place': {'local': rv['op']['place']['local'], 'proj': []}}, depth + 1)
+    return ('local', l)
+
+
+def _fresh_guarded(fn, b):
+    """block b runs only after a set answered `not seen before` for the object at hand"""
+    for f in psc.facts_at(fn, b):
+        if f[0] != 'callbool':
+            continue
+        n = f[1][1]
+        # the set is keyed by the allocation's address (as_ptr / the word): Object's own `==` compares strings and floats by value, so
+        # `found.contains(&o)` also answers `seen` for a different object that happens to be equal
+        by_address = 'as_ptr' in str(f[1][2]) or 'ptr::eq' in str(f[1][2])
+        if n.endswith(SET_INSERT) and f[2] is True and by_address:
+            return True
+        if n.endswith(SET_HAS) and f[2] is False and by_address:
+            return True
+    return False
+
+
 def check_free_recursive(ctx, rep, rule):
-    """Object::free_recursive: every element of an array is freed (no iteration of the element loop skips the free)"""
+    """Object::free_recursive is how the caller of eval releases a result: `without anything remaining or being released twice`.
+    Read from its MIR (helpers spliced in):
+      once        - every Object::free in it runs only after a set answered `new` for that object (HashSet/BTreeSet::insert came
+                    out true, or contains / any came out false), or frees what is drawn from a collection all of whose insertions
+                    run under such an answer;
+      everything  - the elements of an array it meets are entered (put on the work list it draws from, or passed to itself),
+                    not just freed: otherwise what a nested array holds remains."""
     F = ctx.facts()
     fn = F.fn('object::Object::free_recursive')
-    loops = fn.natural_loops()
-    rep.ob(len(loops) == 1, rule, fn.path, 'element loop', 'one loop over the elements (found %d)' % len(loops), fn.loc())
-    from rules.trm import cycle_without
-    for h, body in loops:
-        frees = {b for b, t in fn.calls(body) if callee_name(t) in ('object::Object::free', 'object::Object::free_recursive')}
-        nexts = {b for b, t in fn.calls(body) if callee_name(t).endswith('Iterator>::next')}
-        # a cycle through the header that takes an element (passes next) but avoids every free
-        cyc = cycle_without(fn, h, body, frees)
-        rep.ob(bool(frees) and cyc is None, rule, fn.path, 'every element freed', 'each iteration of the element loop frees its element (a cycle avoiding free(): %s)' % (cyc[:8] if cyc else None), fn.loc())
-    last = [b for b, t in fn.calls() if callee_name(t) == 'object::Object::free' and not any(b in body for _, body in loops)]
-    rep.ob(bool(last), rule, fn.path, 'frees the object itself', 'after the elements the object itself is freed', fn.loc())
+    adds = {}
+    draws = set()
+    enters = []
+    frees = []
+    for b, t in fn.calls():
+        n = callee_name(t)
+        if n.endswith(COLL_ADD) and t['args']:
+            r = _root_local(fn, t['args'][0])
+            adds.setdefault(r, []).append(b)
+            if any('as_vec' in str(sym(fn, a)) for a in t['args'][1:]):
+                enters.append((r, b))
+        if n.endswith(COLL_DRAW) and t['args']:
+            draws.add(_root_local(fn, t['args'][0]))
+        if n == fn.path and any('as_vec' in str(sym(fn, a)) for a in t['args']):
+            enters.append(('self-call', b))
+        if n == 'object::Object::free':
+            frees.append((b, t))
+    rep.ob(bool(frees), rule, fn.path, 'frees', 'the function frees objects (%d sites)' % len(frees), fn.loc())
+    for k, (b, t) in enumerate(frees):
+        src = None
+        why = ''
+        ok = _fresh_guarded(fn, b)
+        if ok:
+            why = 'runs only after a set answered `new` for the object'
+        else:
+            # what is freed: follow the argument back to the draw it came from
+            op = t['args'][0]
+            v = strip(sym(fn, op))
+            src = 'the parameter' if v == ('param', 1) else None
+            drawn = None
+            l = op['place']['local'] if op.get('k') in ('copy', 'move') else None
+            seen_l = set()
+            while l is not None and l not in seen_l and l > fn.arg_count:
+                seen_l.add(l)
+                ds = fn.defs().get(l, [])
+                if len(ds) != 1:
+                    break
+                d = ds[0]
+                if d[0] == 'call':
+                    tt = fn.term(d[1])
+                    if callee_name(tt).endswith(COLL_DRAW) and tt['args']:
+                        drawn = _root_local(fn, tt['args'][0])
+                    break
+                rv = d[3]
+                nxt = None
+                if rv['k'] in ('use', 'cast') and rv['op'].get('k') in ('copy', 'move'):
+                    nxt = rv['op']['place']['local']
+                elif rv['k'] == 'ref':
+                    nxt = rv['place']['local']
+                l = nxt
+            if drawn is not None:
+                if drawn[0] == 'call' and 'as_vec' in drawn[1]:
+                    src = 'an element taken straight from an array'
+                    why = 'a value stored in two elements is released twice, and what a nested array holds is never visited'
+                elif drawn in adds:
+                    ungu = [bb for bb in adds[drawn] if not _fresh_guarded(fn, bb)]
+                    ok = not ungu
+                    src = 'drawn from a local collection'
+                    why = 'every insertion into that collection runs after a set answered `new`' if ok else \
+                        'the collection it is drawn from also receives objects without a first-time test (%d of %d insertions)' % (len(ungu), len(adds[drawn]))
+                else:
+                    src = 'drawn from %s' % (drawn,)
+                    why = 'no first-time test protects this release'
+            elif not why:
+                why = 'no first-time test protects this release (an array can hold the same object twice, or itself)'
+        rep.ob(ok, rule, fn.path, 'released once: free of %s' % (src or 'an object'), why, span_loc(t['span']))
+    worklist_enter = [e for e in enters if e[0] == 'self-call' or e[0] in draws]
+    rep.ob(bool(worklist_enter), rule, fn.path, 'everything reachable is visited',
+           'the elements of an array that is met are put on the work list the function draws from (or handed to the function itself): %d such sites' % len(worklist_enter)
+           if worklist_enter else 'the elements of an array are not entered: whatever a nested array holds remains allocated', fn.loc())
